@@ -779,7 +779,7 @@ class EventSource(object):
                     if self.dictable:
                         try:
                             ejson = json.loads(edata, object_pairs_hook=dict)
-                        except ValueError as ex:
+                        except (ValueError, RecursionError) as ex:
                             ejson = None
                         else:  # valid json set edata to ejson
                             edata = ejson
